@@ -414,7 +414,7 @@ variable {α : Type} [Field α] [LinearOrder α] [IsStrictOrderedRing α]
 /-! ### Veitch -/
 
 theorem veitchComp_eq (alpha g d s : α) :
-    veitchComp alpha g d s = if s + alpha * g * d / 10 < 0 then s else s + alpha * g * d / 10 := rfl
+    veitchComp alpha g d s = if s + alpha * g * d / 10 ≤ 0 then s else s + alpha * g * d / 10 := rfl
 
 theorem veitchComp_accept {xi g d s : α} (hxi : xi < 1) (hg : 0 < g) (hd : 0 < d) (hs : 0 ≤ s) :
     s < veitchComp (1 - xi) g d s := by
@@ -432,7 +432,7 @@ theorem veitchComp_reject_le {xi g d s : α} (hxi : 0 ≤ xi) (hg : 0 ≤ g) (hd
   split_ifs with h <;> linarith
 
 theorem veitchComp_reject_lt {xi g d s : α} (hxi : 0 < xi) (hg : 0 < g) (hd : 0 < d)
-    (hroom : 0 ≤ s + -xi * g * d / 10) : veitchComp (-xi) g d s < s := by
+    (hroom : 0 < s + -xi * g * d / 10) : veitchComp (-xi) g d s < s := by
   have hp : 0 < xi * g * d / 10 := by positivity
   have e : -xi * g * d / 10 = -(xi * g * d / 10) := by ring
   rw [veitchComp_eq]
@@ -443,14 +443,14 @@ theorem veitchComp_nonneg {alpha g d s : α} (hs : 0 ≤ s) : 0 ≤ veitchComp a
   rw [veitchComp_eq]
   split_ifs with h
   · exact hs
-  · exact not_lt.mp h
+  · exact (not_le.mp h).le
 
-theorem veitchComp_pos {alpha g d s : α} (hs : 0 < s) (hne : s + alpha * g * d / 10 ≠ 0) :
-    0 < veitchComp alpha g d s := by
+/-- The guard tests `≤ 0`: a positive width stays positive whatever the update is. -/
+theorem veitchComp_pos {alpha g d s : α} (hs : 0 < s) : 0 < veitchComp alpha g d s := by
   rw [veitchComp_eq]
   split_ifs with h
   · exact hs
-  · exact lt_of_le_of_ne (not_lt.mp h) (Ne.symm hne)
+  · exact not_le.mp h
 
 theorem veitchComp_le {xi g d s : α} (hxi0 : 0 ≤ xi) (hxi : xi ≤ 1) (hg : 0 ≤ g) (hd : 0 ≤ d)
     (acc : Bool) : veitchComp (veitchAlpha xi acc) g d s ≤ s + (1 - xi) * g * d / 10 := by
@@ -465,13 +465,13 @@ theorem veitchComp_le {xi g d s : α} (hxi0 : 0 ≤ xi) (hxi : xi ≤ 1) (hg : 0
     rw [veitchComp_eq]
     split_ifs with h <;> linarith
 
-theorem veitchComp_guard {alpha g d s : α} (h : s + alpha * g * d / 10 < 0) :
+theorem veitchComp_guard {alpha g d s : α} (h : s + alpha * g * d / 10 ≤ 0) :
     veitchComp alpha g d s = s := by
   rw [veitchComp_eq, if_pos h]
 
-theorem veitchComp_step {alpha g d s : α} (h : ¬ (s + alpha * g * d / 10 < 0)) :
+theorem veitchComp_step {alpha g d s : α} (h : 0 < s + alpha * g * d / 10) :
     veitchComp alpha g d s = s + alpha * g * d / 10 := by
-  rw [veitchComp_eq, if_neg h]
+  rw [veitchComp_eq, if_neg (not_le.mpr h)]
 
 @[simp] theorem veitchDefaultStd_getElem {n : Nat} (xi : α) (deltas : Vector α n) (i : Fin n) :
     (veitchDefaultStd xi deltas)[i] = (1 - xi) * ((10 - 1) / (10 * 10)) * deltas[i] := by
